@@ -601,15 +601,34 @@ def setup():
         ensure_makefile()   # _CoqProject / Makefile for humans; the checks use the built-in incremental builder
     except Exception as e:
         print("note: coq_makefile:", e)
-    props = sorted(p for p in project_files() if p.startswith("props/"))
+    try:
+        claimed = {c["property_id"] for c in json.load(open(os.path.join(VERIF, "MANIFEST.json")))["checks"]}
+    except Exception:
+        claimed = set()
+    failed, t0 = [], time.time()
     for pid in prop_ids():
         try:
-            props += [m.replace('.', '/') + '.v' for m in load_plugin(pid).CORR_REQUIRE]
+            pl = load_plugin(pid)
+            targets = [pl.COQ_PROP] + [m.replace('.', '/') + '.v' for m in pl.CORR_REQUIRE]
         except Exception as e:
-            print("plugin", pid, "not loadable:", e)
-    rc, out, dt = build_targets(props, timeout=3000)
-    print(out[-6000:] if rc else "coq build ok in %.0fs (%d property files)" % (dt, len(props)))
-    return 1 if rc else 0
+            print("plugin %s not loadable: %s" % (pid, e))
+            if pid in claimed:
+                failed.append(pid)
+            continue
+        missing = [t for t in targets if not os.path.exists(os.path.join(COQ, t))]
+        if missing:
+            print("plugin %s: missing %s" % (pid, missing))
+            if pid in claimed:
+                failed.append(pid)
+            continue
+        rc, out, dt = build_targets(targets, timeout=3000)
+        print("%s: coq build %s in %.0fs" % (pid, "ok" if rc == 0 else "FAILED", dt))
+        if rc:
+            print(out[-3000:])
+            if pid in claimed:
+                failed.append(pid)
+    print("setup done in %.0fs; failed claimed properties: %s" % (time.time() - t0, failed or "none"))
+    return 1 if failed else 0
 
 
 def gen_manifest():
